@@ -305,6 +305,11 @@ func (c *Entry) ToPlain(out iface.IPFSLogEntry, provider identityprovider.Interf
 }
 
 func (c *LamportClock) ToPlain(out iface.IPFSLogLamportClock) error {
+	if c == nil {
+		// the block has no (or a null) clock field
+		return errmsg.ErrClockDeserialization
+	}
+
 	id, err := hex.DecodeString(c.ID)
 	if err != nil {
 		return errmsg.ErrClockDeserialization.Wrap(err)
